@@ -26,7 +26,13 @@ Prescribed(r) ==
     [] OTHER -> "none"
 
 Verdict(r) ==
-  CASE r.fn = "inc128" -> IF r.out = Inc128(r.x, r.j) THEN "ok" ELSE "evaluator-counter-arithmetic-differs-from-Ctr"
+  CASE r.fn = "idcmp" ->
+         LET want == CmpBE(r.a, r.b) IN
+         IF r.cmp # want \/ r.partial_cmp # want THEN "key-id-ordering-disagrees-with-bytes"
+         ELSE IF r.eq # (r.a = r.b) THEN "key-id-equality-disagrees-with-bytes"
+         ELSE IF r.a = r.b /\ ~r.hash_eq THEN "equal-key-ids-hash-differently"
+         ELSE IF ~r.bytes_back THEN "key-id-bytes-not-preserved" ELSE "ok"
+    [] r.fn = "inc128" -> IF r.out = Inc128(r.x, r.j) THEN "ok" ELSE "evaluator-counter-arithmetic-differs-from-Ctr"
     [] r.fn = "term" ->
          IF r.rel # Prescribed(r) THEN "wrong-relation-reported"
          ELSE IF r.kind = "public" /\ r.dir = "forward" /\ ~Deterministic(r.ver) THEN "equality-demanded-of-randomized-signature"
